@@ -2365,8 +2365,12 @@ macro_rules! vec_impl_spatial_3d {
                     let cos_alpha = from.dot(to).clamped_minus1_1();
                     let alpha = cos_alpha.acos();
                     let sin_alpha = alpha.sin();
-                    let t1 = ((T::one() - factor) * alpha).sin() / sin_alpha;
-                    let t2 = (factor * alpha).sin() / sin_alpha;
+                    // Parallel vectors: the arc is a point, the weights are the limits of the ratios below.
+                    let (t1, t2) = if sin_alpha.abs() <= T::epsilon() {
+                        (T::one() - factor, factor)
+                    } else {
+                        (((T::one() - factor) * alpha).sin() / sin_alpha, (factor * alpha).sin() / sin_alpha)
+                    };
                     (from * t1 + to * t2) * Lerp::lerp_unclamped(mag_from, mag_to, factor)
                 }
                 /// Performs spherical linear interpolation between this vector and another,
